@@ -38,7 +38,7 @@ def twin_of(b):
 def corpus_cases():
     """every operation on every kind of target on both backends (within the domain C01 specifies)"""
     cases = []
-    for b in hist.matrix_cases("c02", ["phys"], c01_domain=True):
+    for b in hist.matrix_cases("c02", ["phys"], c01_domain=True) + hist.reader_seek_cases("c02", ["phys"]):
         b.name = b.name + "_phys"
         b.lines[0] = "case " + b.name
         cases += [twin_of(b), b]
